@@ -97,7 +97,7 @@ def judge(ctx, c):
         sg = np.sign(col[fin])
         has_root[i] = bool(nz[i] and sg.size > 1 and np.any(sg[1:] * sg[:-1] < 0))
     ctx.count("C11.points_with_root_on_scan", int(has_root.sum()))
-    parametric = c["kind"] in ("windsea", "mixed", "veering")
+    parametric = c["kind"] in ("windsea", "mixed", "veering", "young")
     ctx.case((c["kind"], pair, "source_terms", dEdt is not None, bool(np.isfinite(c["depth"]).any())),
              nontrivial=bool(has_root.any()),
              sample={"kind": c["kind"], "pair": pair, "u10": u10, "direction": wdir, "dissipation_bulk": dis_bulk})
@@ -114,6 +114,21 @@ def judge(ctx, c):
                 rescued |= np.isfinite(np.asarray(r_["u10"].values, float))
             except Exception:
                 pass
+        # where is the root, roughly (first sign change of the 1 m/s scan), and how far is the first guess from it?
+        gv = np.asarray(guess.values, float)
+        far = np.zeros(n, dtype=bool)
+        for i in np.where(bad)[0]:
+            col = Gs[:, i]
+            roots = [0.5 * (scan[j] + scan[j + 1]) for j in range(len(scan) - 1)
+                     if np.isfinite(col[j]) and np.isfinite(col[j + 1]) and col[j] * col[j + 1] < 0]
+            ratio = min((gv[i] / r_ for r_ in roots), key=lambda q: abs(np.log(q)) if q > 0 else np.inf) if roots else np.nan
+            ok_guess = np.isfinite(ratio) and 0.2 <= ratio <= 5.0
+            ctx.count("C11.nan_points:first_guess_within_x5_of_a_root" if ok_guess else "C11.nan_points:first_guess_far_from_every_root")
+            far[i] = not ok_guess
+        if far.any():
+            # the first guess itself is off by more than a factor five (or is not a number): that is not the solver
+            # giving up from a reasonable start (the recorded finding) but a first guess that does not do its job
+            return "C11:nan-with-bracketed-root:first-guess-far-from-root"
         if np.all(rescued[bad]):
             return "C11:nan-with-bracketed-root:first-guess-sensitive"
         return "C11:nan-with-bracketed-root:every-guess"
@@ -192,9 +207,22 @@ def judge(ctx, c):
 
 def make(rng, i):
     pair = ["st4/st4", "st4/st6"][i % 2]
-    kind = ["windsea", "veering", "mixed", "swell", "windsea", "mixed", "veering", "swell"][i % 8]
+    kind = ["windsea", "veering", "mixed", "swell", "windsea", "young", "veering", "swell", "mixed", "young"][i % 10]
     c = wl.make_case(rng, kind=kind, npoints=int(rng.integers(1, 9)), nd=int(rng.choice([24, 36])))
     E = np.asarray(c["E"])
+    if E.shape[0] >= 2 and rng.uniform() < 0.3:
+        # the same sea observed at two places of different depth: identical variance densities, different answers
+        E = E.copy()
+        E[1] = E[0]
+        c["E"] = E
+        dep = np.array(c["depth"], dtype=float)
+        dep[0], dep[1] = (np.inf, float(rng.uniform(4.0, 9.0))) if rng.uniform() < 0.5 else (float(rng.uniform(4.0, 9.0)), np.inf)
+        c["depth"] = dep
+        c["u10"] = np.array(c["u10"], dtype=float)
+        c["u10"][1] = c["u10"][0]
+        c["wdir"] = np.array(c["wdir"], dtype=float)
+        c["wdir"][1] = c["wdir"][0]
+        c["kind_note"] = "duplicate-sea-at-two-depths"
     # rate-of-change spectrum whose support avoids bins that switch between forced and unforced as U10 varies
     # (there the balance function jumps and "vanishes" is not well defined): (a) bins that are always actively
     # forced near the root - downwind (cos > 0.5) and well above the peak (f >= 1.6 fp) - and (b) upwind bins
